@@ -45,22 +45,21 @@ def answerCore (fs : List (String × String)) : E String := do
       let Wa ← needMat fs "W" N N
       let W : Mat N N Fix := matOf Wa N N
       let exact := (field? fs "mode") == some "exact"
-      let fixed := (field? fs "variant") == some "fixed"
       let (lhsM, rhsM) ←
-        if op == "npe" then pure (if fixed then npeProblemFixedD W F else npeProblemD W F)
-        else if op == "lltsa" then pure (if fixed then lltsaProblemFixedD W F else lltsaProblemD W F)
+        if op == "npe" then pure (npeProblemD W F)
+        else if op == "lltsa" then pure (lltsaProblemD W F)
         else do
           let dg ← needVec fs "Dg" N
-          pure (if fixed then lppProblemFixedD W (vecOf dg N) F else lppProblemD W (vecOf dg N) F)
+          pure (lppProblemD W (vecOf dg N) F)
       if (field? fs "abort").isSome then return "res=FAIL:abort model=ok"
       let lhsI ← needMat fs "lhs" D D
       let rhsI ← needMat fs "rhs" D D
       let tol : Fix := if exact then 0 else tolM
       let sc := maxRowSum Wa * maxAbsArr Fa * maxAbsArr Fa
       let cl := cmpArr tol lhsI lhsM.data (if exact then 0 else sc)
-      if !cl.ok then return s!"res=BROKEN:lhs {describe cl}"
+      if !cl.ok then return s!"res=FAIL:lhs-differs-from-model {describe cl}"
       let cr := cmpArr tol rhsI rhsM.data
-      if !cr.ok then return s!"res=BROKEN:rhs {describe cr}"
+      if !cr.ok then return s!"res=FAIL:rhs-differs-from-model {describe cr}"
       let n := 2 * D * D
       return s!"res=ok {describe cl} " ++ (if exact then s!"exact={n}" else s!"approx={n}")
     else if op == "embed" then
@@ -78,7 +77,6 @@ def answerCore (fs : List (String × String)) : E String := do
       match (if method == "lpp" then knnContractBy (fun i j => dist i j) nb else knnContract κ nb) with
       | some e => return s!"res=BROKEN:neighbours {e}"
       | none => pure ()
-      let fixed := (field? fs "variant") == some "fixed"
       let (Ma, Bdiag, probL, probR) ←
         if method == "lpp" then do
           let width ← needFix fs "width"
@@ -90,29 +88,25 @@ def answerCore (fs : List (String × String)) : E String := do
                 throw "CONTRACT:exp-contract"
           let Dg := Laplacian.degreesD nb.f H.get
           let L := Laplacian.laplacianLD nb.f H.get
-          let pr := if fixed then lppProblemFixedD L.get Dg.get F else lppProblemD L.get Dg.get F
+          let pr := lppProblemD L.get Dg.get F
           pure (L.data, some Dg.data, pr.1.data, pr.2.data)
         else if method == "npe" then do
           let (M, _, _) ← runModelLle hN fs κ nb
-          let pr := if fixed then npeProblemFixedD (matOf M N N) F else npeProblemD (matOf M N N) F
+          let pr := npeProblemD (matOf M N N) F
           pure (M, none, pr.1.data, pr.2.data)
         else do
           let (M, _, _) ← runModelEig hN fs κ nb false
-          let pr := if fixed then lltsaProblemFixedD (matOf M N N) F else lltsaProblemD (matOf M N N) F
+          let pr := lltsaProblemD (matOf M N N) F
           pure (M, none, pr.1.data, pr.2.data)
       if threw != "-" then return s!"res=FAIL:threw what={threw}"
       let lhs ← needMat fs "lhs" D D
       let rhs ← needMat fs "rhs" D D
       let sc := maxRowSum Ma * maxAbsArr Fa * maxAbsArr Fa
       let cl := cmpArr tolM lhs probL sc
-      if !cl.ok then return s!"res=BROKEN:solver-input-lhs {describe cl}"
       let cr := cmpArr tolM rhs probR
-      if !cr.ok then return s!"res=BROKEN:solver-input-rhs {describe cr}"
       let hook := s!"{← need fs "calls"},{← need fs "skip"},{← need fs "smallest"},{← need fs "gen"},{← need fs "td"}"
-      if hook != s!"1,1,1,1,{d}" then return s!"res=BROKEN:solver-call calls,skip,smallest,gen,td={hook}"
       let P ← needMat fs "P" D d
       let vecs ← needMat fs "vecs" D d
-      if (cmpArr 0 P vecs).maxdev.m ≠ 0 then return "res=BROKEN:projection-is-not-the-solver-output"
       let Y ← needMat fs "Y" N d
       if (field? fs "leg") == some "rot" then
         -- rotation metamorphism on the implementation: same kernel / distances, features R·x
@@ -134,6 +128,8 @@ def answerCore (fs : List (String × String)) : E String := do
         let RP := mulArr R P D D d
         let cP := cmpArr (tolPow 16) (gramOuter P2 D d) (gramOuter RP D d)
         if !cP.ok then return s!"res=FAIL:rotation:projection-not-rotated {describe cP}"
+        if !cl.ok then return s!"res=BROKEN:solver-input-lhs {describe cl}"
+        if !cr.ok then return s!"res=BROKEN:solver-input-rhs {describe cr}"
         return s!"res=ok rot-embedding={relDev cY} rot-projection={relDev cP} approx={N * N + D * D}"
       -- embedding = centred samples projected on the columns
       let Pf : Mat D d Fix := matOf P D d
@@ -161,6 +157,10 @@ def answerCore (fs : List (String × String)) : E String := do
         let evScale := fmax ev0 muMax
         let co := certBottom D d A (some B) Pn false false evScale (tolPow 20) (tolPow 20) tolC
         if !co.ok then return s!"res=FAIL:certificate:{co.why} {certLine co} {describe cl}"
+        if !cl.ok then return s!"res=BROKEN:solver-input-lhs {describe cl}"
+        if !cr.ok then return s!"res=BROKEN:solver-input-rhs {describe cr}"
+        if hook != s!"1,1,1,1,{d}" then return s!"res=BROKEN:solver-call calls,skip,smallest,gen,td={hook}"
+        if (cmpArr 0 P vecs).maxdev.m ≠ 0 then return "res=BROKEN:projection-is-not-the-solver-output"
         return s!"res=ok {describe cl} {certLine co} approx={2 * D * D + N * d}"
     else throw s!"unknown op {op}"
   else throw "N=0"
